@@ -293,7 +293,7 @@ def verify_contract(name, tier='quick', seed=0, repo=None, known=()):
             out['functions'].append({'function': t, 'ast_sha1': loader.func_hash(t)})
         samples = make_samples(c, c.n_samples if tier == 'quick' else 3 * c.n_samples, seed)
         alg = Algebra()
-        ex = Explorer(samples=samples, max_paths=c.max_paths, alg=alg)
+        ex = Explorer(samples=samples, max_paths=c.max_paths, alg=alg, feas_timeout=getattr(c, 'feas_timeout', 3.0))
         budget = c.timeout if tier == 'quick' else 5 * c.timeout
         rules_box = []
 
